@@ -50,6 +50,9 @@ pub struct UdpClient {
     /// address, 4 = FRAG != 0); RFC 1928: the relay drops such datagrams silently
     #[serde(default)]
     pub junk: Vec<u8>,
+    /// SOCKS5 associations only: exchange k goes to the IPv6 twin of its target ([::1], port 9200 + t)
+    #[serde(default)]
+    pub v6: Vec<bool>,
 }
 #[derive(Serialize, Deserialize, Clone, Debug)]
 pub struct C01Plan {
@@ -57,6 +60,9 @@ pub struct C01Plan {
     pub tcp: Vec<TcpConn>,
     pub udp: Vec<UdpClient>,
     pub n_udp_targets: usize,
+    /// extra fixed-target TCP remotes nobody ever connects to (their listeners just sit there)
+    #[serde(default)]
+    pub idle_remotes: usize,
 }
 
 #[derive(Default, Debug, Clone)]
@@ -400,10 +406,16 @@ async fn udp_client(ci: usize, c: UdpClient, res: Rc<RefCell<Vec<UdpRes>>>, faul
     let mut buf = vec![0u8; 70_000];
     for (k, n) in c.sizes.iter().enumerate() {
         let payload = udp_payload(ci, k, *n);
-        let target_port = 9100 + tgt_of(k) as u16;
+        let to_v6 = c.via_socks && c.v6.get(k).copied().unwrap_or(false);
+        let target_port = if to_v6 { 9200 } else { 9100 } + tgt_of(k) as u16;
         let mut pkt = vec![];
         if c.via_socks {
-            pkt.extend([0, 0, 0, 1, 127, 0, 0, 1]);
+            if to_v6 {
+                pkt.extend([0, 0, 0, 4]);
+                pkt.extend(std::net::Ipv6Addr::LOCALHOST.octets());
+            } else {
+                pkt.extend([0, 0, 0, 1, 127, 0, 0, 1]);
+            }
             pkt.extend(target_port.to_be_bytes());
         }
         pkt.extend(&payload);
@@ -524,8 +536,10 @@ pub fn run(plan: &C01Plan, sched: &Sched) -> Outcome {
                         }
                     });
                 }
-                for t in 0..plan.n_udp_targets {
-                    let sock = UdpSocket::bind(("127.0.0.1", 9100 + t as u16)).await.expect("bind udp target");
+                for t6 in 0..2 * plan.n_udp_targets {
+                    // every UDP target has an IPv6 twin
+                    let t = t6 % plan.n_udp_targets;
+                    let sock = if t6 < plan.n_udp_targets { UdpSocket::bind(("127.0.0.1", 9100 + t as u16)).await } else { UdpSocket::bind(("::1", 9200 + t as u16)).await }.expect("bind udp target");
                     tokio::task::spawn_local(async move {
                         let mut b = vec![0u8; 70_000];
                         loop {
@@ -551,6 +565,9 @@ pub fn run(plan: &C01Plan, sched: &Sched) -> Outcome {
                 }
                 for t in 0..plan.n_udp_targets {
                     remotes.push(format!("127.0.0.1:{}:127.0.0.1:{}/udp", 7100 + t, 9100 + t));
+                }
+                for j in 0..plan.idle_remotes.min(200) {
+                    remotes.push(format!("127.0.0.1:{}:127.0.0.1:1", 6000 + j));
                 }
                 let client = spawn_client(&ClientCfg { server: format!("ws://127.0.0.1:{SERVER_PORT}/ws"), remotes, max_retry_count: 3, max_retry_interval: 10_000, handshake_timeout_s: 5, channel_timeout_s: 30, psk: None });
                 // let the tunnel come up
@@ -750,6 +767,9 @@ pub fn run(plan: &C01Plan, sched: &Sched) -> Outcome {
             o.violate(class, format!("{p}; {desc}"));
         }
         o.probe(if c.via_socks { "udp-via-socks5" } else { "udp-via-remote" }, r.replies_ok as u64);
+        if c.via_socks && c.v6.iter().take(c.sizes.len()).any(|x| *x) && c.v6.iter().take(c.sizes.len()).any(|x| !*x) && c.sizes.len() > 1 {
+            o.probe("one-association-both-address-families", 1);
+        }
         if r.junk_sent > 0 {
             o.probe("fault:unparseable-datagram-to-socks5-relay", r.junk_sent as u64);
         }
@@ -765,6 +785,9 @@ pub fn run(plan: &C01Plan, sched: &Sched) -> Outcome {
     }
     if plan.udp.len() > 1 {
         o.probe("concurrent-udp-clients", 1);
+    }
+    if plan.idle_remotes >= 64 && !plan.tcp.is_empty() {
+        o.probe("sixty-four-or-more-idle-listeners", 1);
     }
     let _ = (hung, faulty);
     o.nontrivial = cres.iter().any(|r| r.client_rx > 0 && r.target_rx > 0) || ures.iter().any(|u| u.replies_ok > 0);
